@@ -53,7 +53,7 @@ let show_exn (c : n) : string =
   if k = 99 then "NOMODEL" else "EXN:" ^ string_of_int k
 
 let trim = String.trim
-let nonempty l = List.filter (fun s -> trim s <> "") l
+let nonempty l = List.filter (fun s -> trim s <> "" && trim s <> "-") l
 
 let parse_cse (s : string) : cse_outcome =
   let s = trim s in
